@@ -167,6 +167,18 @@ func CheckC09(c *Ctx) (*Outcome, error) {
 		return nil, err
 	}
 	found = append(found, f2...)
+	nCrash := 18
+	if c.Tier == "thorough" {
+		nCrash = 120
+	}
+	fc, err := c.RunCases(nCrash, func(i int) ([]*History, error) {
+		rng := c.Rng("c09-crash-shrink", i)
+		return []*History{CrashThenShrink(rng, i%6, []string{"crash-before", "crash-after", "crash-torn"}[(i/6)%3])}, nil
+	}, JudgeC09, note)
+	if err != nil {
+		return nil, err
+	}
+	found = append(found, fc...)
 	f3, err := c.RunCases(1, func(int) ([]*History, error) { return []*History{F9Probe()}, nil }, JudgeC09, note)
 	if err != nil {
 		return nil, err
